@@ -239,6 +239,7 @@ type FuncCtx struct {
 	atSites       map[string]int
 	atMatched     map[int]int
 	curEnv        *Env
+	pendingSets   []int
 	siteResults   map[string]TV
 	callSites     map[string]int
 }
@@ -417,6 +418,36 @@ func (fc *FuncCtx) wf(t string, gt types.Type) string {
 		var parts []string
 		for i := 0; i < u.NumFields(); i++ {
 			parts = append(parts, fc.wf(fmt.Sprintf("(%s %s)", info.fields[i], t), u.Field(i).Type()))
+		}
+		return and(parts...)
+	}
+	return "true"
+}
+
+// allocd: every reference inside a real value of the type is at or below the
+// allocation watermark (all references stored anywhere are allocated).
+func (fc *FuncCtx) allocd(t string, gt types.Type, wm string) string {
+	if gt == nil {
+		return "true"
+	}
+	if n, ok := gt.(*types.Named); ok {
+		if _, op := fc.eng.sorts.opaque[n.String()]; op {
+			return "true"
+		}
+	}
+	switch u := gt.Underlying().(type) {
+	case *types.Pointer, *types.Map:
+		return fmt.Sprintf("(<= %s %s)", t, wm)
+	case *types.Slice:
+		return fmt.Sprintf("(<= (s-arr %s) %s)", t, wm)
+	case *types.Struct:
+		info := fc.eng.sorts.structInfoOf(gt)
+		if info == nil {
+			return "true"
+		}
+		var parts []string
+		for i := 0; i < u.NumFields(); i++ {
+			parts = append(parts, fc.allocd(fmt.Sprintf("(%s %s)", info.fields[i], t), u.Field(i).Type(), wm))
 		}
 		return and(parts...)
 	}
@@ -609,9 +640,7 @@ func (fc *FuncCtx) loopPos(h *ssa.BasicBlock) token.Pos {
 func (fc *FuncCtx) declareInput(x ssa.Value, guard string) TV {
 	tv := fc.freshVal(x)
 	fc.q.assume(fc.wf(tv.T, x.Type()))
-	if _, ok := x.Type().Underlying().(*types.Pointer); ok {
-		fc.q.assume(fmt.Sprintf("(<= %s %s)", tv.T, fc.s0.get("$wm")))
-	}
+	fc.q.assume(fc.allocd(tv.T, x.Type(), fc.s0.get("$wm")))
 	return tv
 }
 
@@ -670,7 +699,7 @@ func (e *Engine) verifyFunction(fn *ssa.Function, con *Contract) (q *Query, fc *
 				err = fmt.Errorf("%s: unsupported: %s", fn, string(ue))
 				return
 			}
-			panic(r)
+			err = fmt.Errorf("%s: internal error in the VC generator: %v", fn, r)
 		}
 	}()
 	fc.s0 = fc.newState()
@@ -697,6 +726,7 @@ func (e *Engine) verifyFunction(fn *ssa.Function, con *Contract) (q *Query, fc *
 	}
 	for _, fv := range fn.FreeVars {
 		tv := fc.declareInput(fv, "true")
+		q.assume("(not (= " + tv.T + " 0))") // the address of a captured variable
 		el, _ := deref(fv.Type())
 		// a captured variable: name denotes its content
 		fc.paramTV[fv.Name()] = TV{L: e.derefLoc(tv.T, el), G: el}
